@@ -15,18 +15,52 @@ ENGINES = {
 }
 
 # property -> (engine, category, text, note, technique, design_ref)
+T = "stateful property-based testing (proptest) with generated schedules and fault scripts; "
+B = "trusted: the harness's scripted manager, object ledger and call log; schedule points only between statements of deadpool (sequential consistency; tokio's semaphore internals are not interleaved); bounds max_size <= 5, <= 6 concurrent gets, <= 2 hooks per kind, <= 60 steps"
+
 CHECKS = {
     "C01": ("msim", "exploration",
-            "Generated histories (gets, returns, takes, retains, closes), per-call fault scripts (ok / error / panic / gated / never) and thread-level pauses at 40 schedule points are executed against the real pool; live objects are counted by the objects' own constructors and destructors inside every Manager::create call, after every step and at every park. Finds overshoots of max_size that need a specific interleaving or fault sequence; establishes nothing beyond the explored bounds.",
-            "trusted: the harness's scripted manager and object ledger; schedule points only between statements of deadpool (sequential consistency, tokio semaphore internals not interleaved); max_size <= 4, <= 6 concurrent gets, <= 60 steps",
-            "stateful property-based testing (proptest) with generated schedules and fault scripts; ground-truth object ledger as oracle", "6 C01"),
+            "Generated histories (gets, returns, takes, retains, closes), per-call fault scripts (ok / error / panic / gated / never) and thread-level pauses at the cfg(deadpool_verif) schedule points are executed against the real pool; live objects are counted by the objects' own constructors and destructors inside every Manager::create call, after every step and at every park. Finds overshoots of max_size that need a specific interleaving or fault sequence; establishes nothing beyond the explored bounds.",
+            B, T + "ground-truth object ledger as oracle", "6 C01"),
     "C02": ("msim", "exploration",
             "Same interpreter, weighted to failure paths followed by load. Oracles: at every quiescent point a getter may wait only if held + admitted getters >= max_size, free permits + held + admitted == max_size, users == held + pending; zero-wait gets at quiescent points must succeed when a slot is free; end-of-history capacity probe through the public API (max_size non-blocking gets succeed, one more times out); no foreign panic escapes get().",
-            "liveness is judged at quiescent points of finite histories; same bounds and trusted base as C01",
-            "stateful property-based testing (proptest); conservation invariants at quiescent points plus public-API capacity probe", "6 C02"),
+            "liveness is judged at quiescent points of finite histories; " + B, T + "conservation invariants at quiescent points plus public-API capacity probe", "6 C02"),
+    "C03": ("msim", "fault_enumeration",
+            "Part A enumerates, for every generated configuration and quiescent prefix state, every await point of the next get() (slot wait, each pre_recycle hook, recycle, each post_recycle hook, create, each post_create hook, after 0..2 rejected idle objects) times every abandonment mode (future dropped while suspended, panic at the point, panic after resuming) and compares the pool before and after (differential: users, permits, max_size, size, idle queue order, status, detach/destroy ledger of the discarded objects). Part B runs random multi-task histories with frequent cancellations and panics under the C01/C02/C11 invariants and applies the same differential to every undisturbed abandoned call. The matrix is exhaustive per configuration; configurations and prefixes are sampled.",
+            "an enclosing tokio timeout is represented by dropping the future (what tokio's Timeout does); " + B, "exhaustive crash-point enumeration per generated configuration + stateful property-based testing; before/after differential oracle", "6 C03"),
+    "C04": ("msim", "exploration",
+            "Every get() is checked against the ordered call log of manager and hooks attributed to it: attempts are a prefix of pre_recycle[0..] -> recycle -> post_recycle[0..] or create -> post_create[0..] in registration order, nothing runs after a failing step, a returned object's last attempt is complete and all-ok, rejected objects are detached exactly once, destroyed and never seen again, and an Err carries exactly the scripted create / post_create error (unique serial numbers). Scripts assign outcomes to the n-th call of every callback.",
+            B, "stateful property-based testing (proptest) over fault scripts; call-log grammar oracle", "6 C04"),
+    "C06": ("msim", "exploration",
+            "close() is placed anywhere in generated histories, also on its own thread parked between its statements while returns, takes, gets, resizes and retains run. Oracles once close() has returned: waiters were woken and fail with Closed, later gets never yield an object, is_closed stays true, resize changes nothing, at quiescence no idle object remains and status().max_size is 0, objects returned later are destroyed, surviving objects can be used and dropped after every pool handle is gone.",
+            B, T + "post-close invariants as oracle", "6 C06"),
+    "C07": ("msim", "exploration",
+            "Histories of resize(n) interleaved with gets in every phase, returns, takes, retains and failing gets, at task and thread level, judged against an ideal capacity model that is independent of the implementation's arithmetic: free permits at every quiescent point must equal max(0, n - in_use), surplus objects are discarded on return, take never frees a surplus slot, end probe yields exactly n objects. Deviations are accepted only when they are exactly what the known arithmetic of Pool::resize produces for a listed known finding (KF1-KF3); anything else is a violation.",
+            "three genuine defects of resize() are recorded, not repaired (known_findings.json); in stretches where a resize overlaps parked operations the size of a surplus is not judged, only its sign; " + B, T + "ideal capacity model with known-finding signature matcher", "6 C07, 7"),
+    "C08": ("msim", "exploration",
+            "Task-level histories of gets, returns in any order, takes, retains, resizes and rejected recycles in both queue modes. A reference idle queue is maintained from the return log; the first object each get() offers must be its front (Fifo) or back (Lifo), Manager::create may only be called by a get() while the reference queue is empty, and every manager / hook / predicate callback must happen on a thread that is running a pool operation of an allowed kind (building a pool and idle time produce none).",
+            "no thread-level pauses (the property quantifies over histories); " + B, "model-based property testing (proptest): reference queue as oracle", "6 C08"),
+    "C09": ("msim", "exploration",
+            "Generated predicates (bit masks over idle positions and stateful FnMut shapes) and histories mixing retain / take with gets, returns, resizes and close, with pauses in retain and detach_object. Oracles: the predicate is asked once per idle object in queue order, removed / retained match the verdicts, size / idle / permits / users move by exactly the right amounts, take returns the same value and shrinks the pool by one, and a per-object ledger demands exactly one Manager::detach before every hand-over or destruction by a live pool and none for objects that stay.",
+            B, T + "detach ledger and before/after books as oracle", "6 C09"),
+    "C11": ("msim", "exploration",
+            "status() and the guarded snapshot are sampled after every step and at every park. At rest (nothing parked, nobody inside a manager or hook call) the four figures must equal ground truth; at all other instants size <= objects that exist or are being created, available <= size, waiting <= callers inside get(), every counter < 2^32, size > max_size only after a shrink or close.",
+            "overflow checks are off in the harness profile so a wrapped counter is observed rather than aborting the process; " + B, T + "ground-truth comparison at rest and range invariants at every schedule point", "6 C11"),
+    "C13": ("msim", "exploration",
+            "Per object id the harness keeps its own hand-out count h. After every hand-out Object::metrics() must show the same created instant, recycle_count == h-1 and recycled absent for h == 1 and non-decreasing afterwards; hooks and Manager::recycle during the h-th hand-out must see recycle_count == h-2 and no recycled instant before the first reuse; post_create hooks see fresh metrics; retain must see exactly what Object::metrics() last reported.",
+            "instants are only compared with each other, never with a wall-clock threshold; " + B, "stateful property-based testing (proptest); per-object reference counters as oracle", "6 C13"),
+    "C05": ("usim", "exploration",
+            "Histories of get / try_get / timeout_get / add / try_add / remove / try_remove / take / return / cancel on pools built by new, from_config and From<Vec>, with thread-level pauses between the statements of Object::drop, Object::take, _add, try_get and close. Identity-tagged objects: after every step and at every park each id is in exactly one place (queue, one caller, handed back), none is destroyed by an open pool, queued + checked out <= max_size; sequential model for every call made at a quiescent point (try_add Timeout iff full with the same object back, add pending iff full, try_get Timeout iff empty); at rest status() and both semaphores equal ground truth.",
+            "trusted: the harness's ownership ledger; schedule points between statements only; max_size <= 4, <= 6 pending futures", "stateful property-based testing (proptest) with generated schedules; conservation ledger and sequential reference model", "6 C05"),
+    "C12": ("usim", "exploration",
+            "Same interpreter with close() anywhere, weighted to getters parked between permit and pop and to _add / Object::drop parked between their steps while close runs. Every call is wrapped in catch_unwind; after close() returned, waiters must have been woken and fail with Closed, adders get the same object back, later calls fail with Closed, the queue is empty and size equals the objects still checked out, objects returned later are destroyed.",
+            "a call that is mis-configured (non-zero timeout without runtime) may report NoRuntimeSpecified on a closed pool; same bounds as C05", "stateful property-based testing (proptest) with generated schedules; panic capture and post-close invariants", "6 C12"),
 }
 
 PENDING = {}
+
+T = "stateful property-based testing (proptest) with generated schedules and fault scripts; "
+B = "trusted: the harness's scripted manager, object ledger and call log; schedule points only between statements of deadpool (sequential consistency; tokio's semaphore internals are not interleaved); bounds max_size <= 5, <= 6 concurrent gets, <= 2 hooks per kind, <= 60 steps"
 
 def main():
     props = [json.loads(l)["id"] for l in open("/verif/properties.jsonl")]
@@ -53,7 +87,7 @@ def main():
     hooks_commits = subprocess.run(
         ["git", "-C", "/repo", "log", "--format=%H %s"], capture_output=True, text=True
     ).stdout.splitlines()
-    hook_shas = [l.split()[0] for l in hooks_commits if "verif hooks" in l]
+    hook_shas = [l.split()[0] for l in hooks_commits if "verif hooks" in l][::-1]
     used = sorted({CHECKS[p][0] for p in CHECKS})
     m = {
         "version": 1,
